@@ -93,10 +93,10 @@ class SymSeq:
 
     def append(self, v):
         if self.keys is not None:
-            if not isinstance(v, dict):
-                raise Unsupported('append of a non-dict to a list of records')
             if self.extractors is not None:
-                vs = [ex(v) for ex in self.extractors]
+                vs = [ex(v) for ex in self.extractors]       # the contract says how a record (dict or object) maps to the tracked columns
+            elif not isinstance(v, dict):
+                raise Unsupported('append of a non-dict to a list of records')
             else:
                 if any(k not in v for k in self.keys):
                     raise Unsupported('append of a record without the tracked keys %s' % self.keys)
